@@ -11,7 +11,7 @@ from sysloss.diagram import make_diag, make_hdiag, get_conf
 
 PROP = "C19"
 COLD, WARM = "#2120ff", "#ff1210"
-PREFIX = {"p": 1e-12, "n": 1e-9, "u": 1e-6, "m": 1e-3, "": 1.0, "k": 1e3, "M": 1e6}
+PREFIX = {"p": 1e-12, "n": 1e-9, "u": 1e-6, "m": 1e-3, "": 1.0, "k": 1e3, "M": 1e6, "G": 1e9, "T": 1e12}
 
 
 def shapes(pal=0):
@@ -80,7 +80,7 @@ def expected_node_attrs(conf, kind, name):
 
 
 def parse_si(txt):
-    m = re.match(r"^(-?[0-9.]+(?:e[-+]?[0-9]+)?)([pnumkM]?)W$", txt)
+    m = re.match(r"^(-?[0-9.]+(?:e[-+]?[0-9]+)?)([pnumkMGT]?)W$", txt)
     if not m:
         return None
     return float(m.group(1)) * PREFIX[m.group(2)]
@@ -300,7 +300,7 @@ def gen_cases(tier):
                             yield dict(fam="shape", shape=name, pal=pal, groups=groups, config=cfg, heat=heat, group=group, graphviz=False, blank_groups=True)
                         if cfg == "default" and sum(gs) in (0, 2):  # the same structure reached through an edit history (freed + re-used node indices)
                             yield dict(fam="shape", shape=name, pal=pal, groups=groups, config=cfg, heat=heat, group=group, graphviz=False, holes=True)
-    decs = range(-14, 8)
+    decs = range(-14, 13)
     mant = [1.234, 9.996, 5.555, 1.0, 9.5]
     for d_ in decs:
         for cfg in ("default", "lr"):
